@@ -87,14 +87,33 @@ Definition check_seq (c : seq_case) : N := let '(ops, os) := c in seq_walk empty
 
 (* ---- concurrent runs: sequential setup, then threads (ops with the results the engine returned,
    creations carrying the id handed out), then the observation at quiescence.
-   mode 0: threads only create edges between nodes that stay, and delete edges of the setup that no
-           other thread touches: the model (any order of the threads, by the concurrent theorem)
-           must give the same observation.
-   mode 1: anything else: only the oracle is evaluated. *)
+   mode 0: threads create edges between nodes that stay and delete/update edges of the setup (a
+           deleted edge is never updated): the final graph does not depend on the interleaving
+           (C05_concurrent_atomic_rmw), so the model run thread after thread must give the same
+           observation.
+   mode 1: node deletions race with other operations: only the oracle is evaluated; a failure is
+           in known class 0 `concurrent-delete-node` when one thread deleted a node that another
+           thread used as an endpoint of an edge creation (C05_delete_node_race_refuted). *)
+Definition names_endpoint (n : N) (o : op) : bool :=
+  match o with
+  | CreateEdge f t _ => N.eqb f n || N.eqb t n
+  | CreateEdgeId _ f t _ => N.eqb f n || N.eqb t n
+  | _ => false
+  end.
+Definition deleted_nodes (t : list (op * res)) : list N :=
+  flat_map (fun p => match p with (DeleteNode n, ROk) => [n] | _ => [] end) t.
+Fixpoint delete_node_race (before after : list (list (op * res))) : bool :=
+  match after with
+  | [] => false
+  | t :: rest =>
+      existsb (fun n => existsb (fun t' => existsb (fun p => names_endpoint n (fst p)) t') (before ++ rest)) (deleted_nodes t)
+      || delete_node_race (before ++ [t]) rest
+  end.
 Definition conc_case := (N * list op * list (list (op * res)) * obs)%type.
 Definition check_conc (c : conc_case) : N :=
   let '(mode, setup, threads, ob) := c in
-  if negb (consistent_obs ob) then V_VIOLATION
+  if negb (consistent_obs ob) then
+    (if N.eqb mode 1 && delete_node_race [] threads then V_KNOWN 0 else V_VIOLATION)
   else if N.eqb mode 0 then
     let s := run (run empty setup) (map fst (concat threads)) in
     if obs_eqb (observe s) ob then V_OK else V_MISMATCH
